@@ -873,6 +873,43 @@ class FnCtx:
                 if len(live) == 1:
                     out += self.facts_at(live[0], (live[0], b))
         out += self.counter_facts(b)
+        # x <= y together with x != y is x + 1 <= y over the integers (guards written as `if a > b {..}` then `if a == b {..}`)
+        try:
+            conds = list(self.ft.conditions(b))
+            if edge is not None:
+                t_ = self.ft.blocks[edge[0]]["term"]
+                if t_["k"] == "switch":
+                    vals_, other_ = switch_edge_values(t_, edge[1])
+                    conds.append((self.ft.switch_term(edge[0]), vals_, other_, [int(x) for x, b2 in t_["targets"] if b2 != edge[1]], edge[0]))
+            for d, vals, other, excl, sb in conds:
+                truth = None
+                if not other and vals:
+                    truth = True if all(v != 0 for v in vals) else (False if vals == [0] else None)
+                elif other and 0 in excl and not vals:
+                    truth = True
+                if d[0] == "un" and d[1] == "Not" and truth is not None and d[2][0] == "bin":
+                    d, truth = d[2], not truth
+                if not (d[0] == "bin" and d[1] in ("Eq", "Ne") and truth is not None and (d[1] == "Ne") == truth):
+                    continue
+                if (self.ft.tyof(d[2]) or "") in ("f64", "f32", "bool") or is_const(d[2]) or is_const(d[3]):
+                    continue
+                lx, ly = self.linear(d[2], sb), self.linear(d[3], sb)
+                if not lx or not ly:
+                    continue
+                co = dict(lx[0])
+                for a_, c_ in ly[0].items():
+                    co[a_] = co.get(a_, 0) - c_
+                co = {a_: c_ for a_, c_ in co.items() if c_}
+                k = lx[1] - ly[1]
+                neg = {a_: -c_ for a_, c_ in co.items()}
+                for fco, fk in list(out):
+                    f2 = {a_: c_ for a_, c_ in fco.items() if c_}
+                    if f2 == co and fk == k:
+                        out.append((co, k + 1))
+                    elif f2 == neg and fk == -k:
+                        out.append((neg, -k + 1))
+        except RecursionError:
+            pass
         self._facts_memo[key] = out
         return out
 
@@ -1234,6 +1271,20 @@ class FnCtx:
             r = int_range(t[3])
             if inner[0] == "i" and r and inner[1] >= r[0] and inner[2] <= r[1]:
                 return self._lin(t[2], at, depth + 1)
+        if tag == "call" and isinstance(t[1], str) and t[2] and t[1].split("::")[-1] in ("expect", "unwrap") and "option::Option" in t[1]:
+            # checked_op(a, b).expect(..) is a op b wherever it has a value at all (its panic is an obligation of its own)
+            inner = t[2][0]
+            while inner[0] in ("ref", "deref"):
+                inner = inner[2] if inner[0] == "ref" else inner[1]
+            if inner[0] == "call" and isinstance(inner[1], str) and len(inner[2]) == 2 and inner[1].split("::")[-1] in ("checked_add", "checked_sub"):
+                a, b = self._lin(inner[2][0], at, depth + 1), self._lin(inner[2][1], at, depth + 1)
+                s_ = 1 if inner[1].endswith("checked_add") else -1
+                co = dict(a[0])
+                for x, c in b[0].items():
+                    co[x] = co.get(x, 0) + s_ * c
+                    if co[x] == 0:
+                        del co[x]
+                return (co, a[1] + s_ * b[1])
         return ({self.atom(t, at): 1}, 0)
 
     def exact_bin(self, t, at):
